@@ -306,7 +306,7 @@ func (c *FnCtx) runBody() {
 					}
 				}
 				nv := Val{T: t, Ty: phi.Type(), Opaque: first.Opaque && len(ins) == 1}
-				if len(t) > 60 {
+				if len(t) > 60 || strings.HasPrefix(t, "(ite ") {
 					n := c.fresh(phi.Name(), c.sortOf(phi.Type()))
 					c.define(eq(n, t))
 					nv.T = n
